@@ -7,6 +7,9 @@ namespace Bee2V.C08
 /-- apduCmdDec never reads outside its input (whatever Lc/Le forms the octets pretend to have) -/
 theorem apduCmdDec_no_oob (apdu : List UInt8) : apduCmdDec apdu ≠ .oob := by
   rcases apduCmdDec_cases apdu with e | ⟨_, e⟩ <;> rw [e] <;> simp
+/-- the command of the seeded over-read (Lc announces one octet more than present): rejected, and — by the theorem
+    above — without a read outside the input, although the model copies the data field before it decodes Le -/
+example : apduCmdDec [0x00, 0xA4, 0x04, 0x04, 0x05, 0x11, 0x22, 0x33, 0x44] = .err := by decide +kernel
 
 /-- the data field of an accepted command lies inside the input -/
 theorem apduCmdDec_bounded (apdu : List UInt8) (cmd : Cmd) (h : apduCmdDec apdu = .ok cmd) :
